@@ -6,7 +6,7 @@ From RecordUpdate Require Import RecordUpdate.
 From SL Require Import PyInt LoopSem ScreenSem ScreenMon proofs.InputLink.
 Import ListNotations.
 
-Lemma chk_all_C07 strict fresh quit nosep w e : chk_all strict fresh quit nosep w e = true -> chk_C07 quit w e = true.
+Lemma chk_all_C07 fresh quit nosep w e : chk_all fresh quit nosep w e = true -> chk_C07 quit w e = true.
 Proof.
   unfold chk_all, mchk_all. intros H. rewrite chk07_abs.
   apply andb_true_iff in H. destruct H as [H _]. apply andb_true_iff in H. destruct H as [H _].
@@ -18,7 +18,7 @@ Theorem one_followup specs specl typed quit run_empty fuel acts :
   sok (chk_C07 quit) typed (rev (trace (snd (app_run_all specs specl typed quit run_empty fuel acts)))) = true.
 Proof.
   intros HS WF. eapply sok_weaken; [apply chk_all_C07|].
-  apply (all_accepted false false (fun _ => 0) specs specl typed quit run_empty fuel acts HS WF).
+  apply (all_accepted false specs specl typed quit run_empty fuel acts HS WF).
 Qed.
 
 (* ---- the table *)
